@@ -45,6 +45,12 @@ pub fn run_one(b: u64, arrived: &[(i64, i64)], sync: bool, seed: u64) -> Value {
 /// `by_order`: the k-th `get` request the peers receive (whoever receives it) is answered with the k-th item, so the stream
 /// is delivered in the planned order whichever peers the lookup chooses to visit (long streams: more peers than one round)
 pub fn run_one_opts(b: u64, arrived: &[(i64, i64)], sync: bool, seed: u64, by_order: bool) -> Value {
+    run_one_full(b, arrived, sync, seed, by_order, false)
+}
+
+/// `with_put` (sync flavour): the node has a put_mutable of its own for the key in flight (seq -8, below every replica's) when the
+/// call is made; the call joins that put's lookup, is handed the outgoing item first and then everything the replicas send.
+pub fn run_one_full(b: u64, arrived: &[(i64, i64)], sync: bool, seed: u64, by_order: bool, with_put: bool) -> Value {
     let mut sim = Sim::new(seed ^ b, NetCfg { lat_min_ms: 1, lat_max_ms: 1, ..Default::default() });
     sim.record = true;
     let mut rng = Rng::new(seed ^ (b << 8));
@@ -137,6 +143,19 @@ pub fn run_one_opts(b: u64, arrived: &[(i64, i64)], sync: bool, seed: u64, by_or
         };
     } else {
         let d = sim.dht(c);
+        if with_put {
+            let before = v::dht_queue_len(&d);
+            let (d3, sk3, salt4) = (d.clone(), sk.clone(), salt.clone());
+            // (the helper is left behind: the put completes after the call that is being judged)
+            let _ = std::thread::spawn(move || {
+                let item = dht::MutableItem::new(&sk3, &val_bytes(1), wide(-8), salt4.as_deref());
+                let _ = d3.put_mutable(item, None);
+            });
+            let t0 = std::time::Instant::now();
+            while v::dht_queue_len(&d) == before && t0.elapsed() < WATCHDOG {
+                std::thread::yield_now();
+            }
+        }
         let before = v::dht_queue_len(&d);
         let salt3 = salt.clone();
         let d2 = d.clone();
@@ -198,8 +217,11 @@ pub fn run_one_opts(b: u64, arrived: &[(i64, i64)], sync: bool, seed: u64, by_or
         let _ = std::fs::write(path, o);
     }
     sim.shutdown();
-    json!({"e":"run","b":b,"flavour": if sync {"sync"} else {"async"},
-        "arrived": arr.iter().map(|(_, s, v)| json!([s, v])).collect::<Vec<_>>(),
+    // the node's own outgoing item is handed to the caller first
+    let mut arrived_json: Vec<Value> = if with_put && sync { vec![json!([-8, 1])] } else { vec![] };
+    arrived_json.extend(arr.iter().map(|(_, s, v)| json!([s, v])));
+    json!({"e":"run","b":b,"flavour": if sync {"sync"} else {"async"},"with_put": with_put && sync,
+        "arrived": arrived_json,
         "planned": arrived.iter().map(|(s, v)| json!([s, v])).collect::<Vec<_>>(),
         "by_order": by_order,
         "status": if hung { "hang" } else if result == json!([-2, -2]) { "panic" } else { "ok" },
@@ -213,8 +235,10 @@ pub fn run(args: &Args) -> i32 {
     // --b0: number the runs from here (replay of one run under its original number, which seeds the peers' ids)
     let mut b = args.u64("b0", 0);
     let mut distinct = std::collections::HashSet::new();
+    let force_put = std::cell::Cell::new(false);
     let mut emit = |arrived: Vec<(i64, i64)>, sync: bool, out: &mut Out, samples: &mut Vec<Value>, b: &mut u64| {
-        let line = run_one(*b, &arrived, sync, seed);
+        // every third sync run: the node has a put of its own for the key in flight when the call is made
+        let line = run_one_full(*b, &arrived, sync, seed, false, sync && (*b % 3 == 1 || force_put.get()));
         if samples.len() < 3 && arrived.len() >= 3 {
             samples.push(line.clone());
         }
@@ -230,6 +254,7 @@ pub fn run(args: &Args) -> i32 {
                 if arrived.len() >= 2 {
                     distinct.insert(format!("{arrived:?}"));
                 }
+                force_put.set(g["with_put"].as_bool() == Some(true));
                 if g["by_order"].as_bool() == Some(true) {
                     // replay of a long stream
                     let line = run_one_opts(b, &arrived, args.u64("sync-every", 4) == 1, seed, true);
